@@ -5,5 +5,6 @@ CONSTANTS
   Routes = {"string", "lines", "coloured"}
   CfgName = "rich"
   Emit = TRUE
+  EmitOneIn = 25
 INVARIANTS Inv_P_C10 Inv_LiveTreesClean Inv_Emit
 CHECK_DEADLOCK FALSE
